@@ -764,6 +764,12 @@ func (l *memoryBlockList) MoveDataForUserData(userData any) defrag.MoveAllocatio
 		panic(fmt.Sprintf("attempted to create a MoveAllocationData for a non-Allocation userData: %+v", userData))
 	}
 
+	if _, isDefragTemporary := alloc.userData.(*defrag.MetadataDefragContext[Allocation]); isDefragTemporary {
+		// Destination allocations created by a defragmentation pass carry the pass's context as
+		// user data. They are not user allocations and must never be proposed as a move source.
+		return defrag.MoveAllocationData[Allocation]{}
+	}
+
 	var flags AllocationCreateFlags
 
 	if alloc.isPersistentMap() {
